@@ -48,7 +48,7 @@ def optimize_joins(expression: E) -> E:
 
                 # Only conjuncts can be extracted, i.e. `a OR b` is not `b AND (a OR TRUE)`
                 if isinstance(on, exp.And):
-                    if len(other_table_names(dep)) < 2:
+                    if len(other_table_names(dep)) < 2 or _creates_cycle(joins, join, dep):
                         continue
 
                     for predicate in on.flatten():
@@ -107,6 +107,27 @@ def normalize(expression: E) -> E:
             if not join.args.get("on") and not join.args.get("using"):
                 join.set("on", exp.true())
     return expression
+
+
+def _creates_cycle(joins: list[exp.Join], join: exp.Join, dep: exp.Join) -> bool:
+    """
+    Checks if moving the predicates that reference `join` from the ON clause of `dep` to `join`
+    would make the joins depend on each other in a cycle, in which case they can't be ordered.
+    """
+    name = join.alias_or_name
+    dag = {j.alias_or_name: other_table_names(j) for j in joins}
+    dag[dep.alias_or_name] = set()
+
+    for predicate in dep.args["on"].flatten():
+        tables = exp.column_table_names(predicate)
+        moved = name in tables
+        dag[name if moved else dep.alias_or_name] |= tables - {name if moved else dep.alias_or_name}
+
+    try:
+        tsort(dag)
+    except ValueError:
+        return True
+    return False
 
 
 def other_table_names(join: exp.Join) -> set[str]:
